@@ -345,7 +345,33 @@ func (r *Report) finishProp(prop string, known []knownFinding, unclaimed []uncla
 		}
 	}
 	_ = partial
+	// entry points: functions whose preconditions no verified caller establishes (framework-called)
+	called := map[string]bool{}
+	for _, res := range r.Results {
+		if res.Unit != nil {
+			for k := range res.Unit.contractsUsed {
+				called[k] = true
+			}
+		}
+	}
+	var entryAssumed []string
+	for _, res := range r.Results {
+		u := res.Unit
+		if u == nil || u.contract == nil || len(u.contract.Requires) == 0 || called[res.Key] {
+			continue
+		}
+		if _, rel := funcs[res.Key]; !rel {
+			continue
+		}
+		var cl []string
+		for _, c := range u.contract.Requires {
+			cl = append(cl, c.Text)
+		}
+		entryAssumed = append(entryAssumed, fmt.Sprintf("entry-point precondition of %s assumed (no verified caller): %s", res.Key, strings.Join(cl, " && ")))
+	}
+	sort.Strings(entryAssumed)
 	var assumptions []string
+	assumptions = append(assumptions, entryAssumed...)
 	assumptions = append(assumptions, "go/packages + go/ssa (x/tools v0.29.0) lower /repo's source faithfully; govc's translation and weakest-precondition generation are correct; solvers are sound")
 	assumptions = append(assumptions, "sequential semantics inside one function activation; other threads act only at lock acquisitions (thread-modular)")
 	assumptions = append(assumptions, "[]byte values are immutable data (functions storing into []byte elements are flagged outside the subset)")
